@@ -121,11 +121,19 @@ class DocGen:
                 alist.append(("", "n%d" % i, "v"))
             self.features.add("over-100-attributes")
         r.shuffle(alist)
+        if self.profile == "mid" and self.nelem == 1:
+            # 26..40 plain attributes FIRST (the set-based duplicate registries rehash at 28, 4 x 7), the rest after them
+            alist = [("", "n%d" % i, "v") for i in range(r.choice([26, 27, 28, 29, 30, 35, 40]))] + alist
+            self.features.add("28-or-more-attributes-first")
         # error injection
         if self.err and (r.random() < 0.35 or (depth == 0 and r.random() < 0.2)):
             epfx, alist = self.inject(self.err, epfx, alist, nscope, bound)
             self.features.add("error:" + self.err)
             self.err = None
+            if self.profile == "mid" and self.nelem == 1:
+                # keep the plain attributes in front, so that a colliding pair comes after at least 26 distinct names
+                fill = [a for a in alist if a[0] == "" and a[1][:1] == "n" and a[1][1:].isdigit()]
+                alist = fill + [a for a in alist if a not in fill]
         nkids = 0
         if depth < maxdepth:
             if self.profile == "deep":
@@ -229,9 +237,11 @@ def gen_doc(rng, idx):
         profile = "deep"
     elif x < 0.21:
         profile = "huge"
+    elif x < 0.27:
+        profile = "mid"
     ver = "11" if rng.random() < 0.15 else "10"
     err = rng.choice(ERR_KINDS) if rng.random() < 0.32 else None
-    if profile == "huge" and rng.random() < 0.6:
+    if profile in ("huge", "mid") and rng.random() < 0.6:
         err = rng.choice(["dup_expanded_last", "dup_expanded", "dup_raw"])
     g = DocGen(rng, ver, err, profile)
     maxdepth = rng.choice([30, 31, 32, 33, 39, 40, 41, 45, 52]) if profile == "deep" else rng.choice([1, 2, 3, 4, 5])
@@ -480,6 +490,8 @@ WITNESSES = [
     # WFXMLScanner: more than 100 attributes, the last one collides with an earlier one after expansion
     ("F27", "parse sax2p wf 10 0 0 S - r e 104 xmlns a urn:u xmlns b urn:u a x 1 " +
             " ".join("- n%d v" % i for i in range(100)) + " b x 2"),
+    # SGXMLScanner: the 29th distinct attribute is lost by the duplicate registry (Hash2KeysSetOf rehash)
+    ("F29", "parse sax2p sg 10 0 0 S - b e 30 " + " ".join("- n%d v" % i for i in range(1, 29)) + " - k 1 - k 2"),
     # XML 1.1: attribute using a prefix that was un-declared
     ("F28", "parse sax2p ig 11 0 0 S - r n 1 xmlns p urn:u S - c e 2 xmlns p - p x 1 E"),
     ("F28", "parse dom ig 11 0 0 S - r n 1 xmlns p urn:u S - c e 2 xmlns p - p x 1 E"),
@@ -521,6 +533,8 @@ def classify(req, impl, why=""):
         return "F28"
     if sc == "wf" and accepted and any(len(atts) > 100 for atts, _ in scopes):
         return "F27"
+    if sc == "sg" and accepted and any(len(atts) > 28 for atts, _ in scopes):
+        return "F29"
     if sc == "wf" and accepted and any(ap == "xmlns" and al != "xml" and av in (XML_URI, XMLNS_URI)
                                        for atts, _ in scopes for ap, al, av in atts):
         return "F26"
